@@ -93,7 +93,8 @@ def run_long(item):
                     parser._CSVParser__extended_rows = counting()
                     return r
             loadmod.Stream = CountingStream
-            src = DF.load(path)
+            # a row cap far above / at half of the file length must not change how far load reads ahead
+            src = DF.load(path, **({'limit_rows': 10 ** 6} if item['source'] == 'csv_limit' else {'limit_rows': n // 2} if item['source'] == 'csv_half' else {}))
 
         def sink(rows):
             for row in rows:
@@ -155,7 +156,7 @@ def run():
     model(rep, t)
     sizes = (300, 3000) if t == 'quick' else (1000, 100000)
     progs = programs(r, t)
-    cands = [dict(id='x', prog=p, source=source) for i, p in enumerate(progs) for source in (['iterable'] if i % 3 == 1 else ['iterable_latecol'] if i % 3 == 2 else ['iterable', 'csv'])]
+    cands = [dict(id='x', prog=p, source=source) for i, p in enumerate(progs) for source in (['iterable'] if i % 3 == 1 else ['iterable_latecol'] if i % 3 == 2 else ['iterable', 'csv', 'csv_limit' if i % 2 else 'csv_half'])]
     okres = pmap(dry_run, cands, chunksize=2)
     cands = [c for c, o in zip(cands, okres) if o.get('ok')]
     rep.notes['programs_welltyped'] = len(cands)
@@ -165,7 +166,7 @@ def run():
         for source in [c['source']]:
             # deduplicate on key a keeps 3 rows, filter_eq keeps a third: fine, deliveries are what is observed
             for n in sizes:
-                if source == 'csv':
+                if source.startswith('csv'):
                     n = {300: 3000, 3000: 9000, 1000: 5000, 100000: 50000}[n]
                 items.append(dict(id='%d-%s-%d' % (i, source, n), pid='%d-%s' % (i, source), prog=p, n=n, source=source))
     items = {it['id']: it for it in items}.values()
